@@ -81,10 +81,12 @@ def _reader(case, d):
         paths, off = [], 0
         for i, l in enumerate(parts):
             p = d / ('f%d.bin' % i)
-            A[off:off + l].tofile(p)
+            with open(p, 'wb') as f:
+                f.write(b'\x02' * case.get('offset', 0))        # header bytes before the samples
+                f.write(A[off:off + l].tobytes())
             off += l
             paths.append(p)
-        r = get_ephys_reader(paths, sample_rate=100., dtype=np.dtype(dtype), n_channels=nch)
+        r = get_ephys_reader(paths, sample_rate=100., dtype=np.dtype(dtype), n_channels=nch, offset=case.get('offset', 0))
     elif b == 'npy':
         np.save(d / 'a.npy', A)
         r = get_ephys_reader(d / 'a.npy', sample_rate=100.)
@@ -353,7 +355,7 @@ def gen(tier, rng):
                         steps.append({'k': 'eval', 'reader': rdr, 'item': it, 'kind': 'py'})
                 if ok_chain:
                     yield dict(p=PID, backend=backend, dtype=dtype, parts=parts, nch=nch, steps=steps,
-                               base=['ids', 'extreme'][(k // 2) % 2])
+                               base=['ids', 'extreme'][(k // 2) % 2], offset=[0, 6, 0, 128][k % 4])
     # random derivation trees
     for _ in range(3000 if q else 40000):
         dtype = rng.pick(DTYPES)
@@ -393,4 +395,4 @@ def gen(tier, rng):
                 steps.append(ev)
         if any(s['k'] == 'eval' for s in steps):
             yield dict(p=PID, backend=backend, dtype=dtype, parts=parts, nch=nch, steps=steps,
-                       base=rng.pick(['ids', 'extreme', 'extreme']))
+                       base=rng.pick(['ids', 'extreme', 'extreme']), offset=rng.pick([0, 0, 10, 64]))
